@@ -134,6 +134,10 @@ func checkC09(r *core.Run, p *core.Program) {
 		if rn := recvNamed(f.Obj); rn == nil || rn.Obj().Name() != "Reader" {
 			continue
 		}
+		if f.Decl.Name.Name == "ReadTypeOrEOF" {
+			nErr++ // its branch (EOF -> sentinel, anything else raised) is checked by shape above
+			continue
+		}
 		ast.Inspect(f.Decl.Body, func(n ast.Node) bool {
 			ifs, ok := n.(*ast.IfStmt)
 			if !ok {
@@ -228,6 +232,18 @@ func checkC09(r *core.Run, p *core.Program) {
 		r.Check("C09.on-error", "rules.RulesEventReceiver.OnError|forwards", f.Decl.Pos(), fw, "the validator must forward OnError to the next receiver")
 	}
 	checkTerminateProgress2(r, p, a)
+	if m := newBuilderMatrix(p, a); m != nil {
+		checkTerminators(r, m, "C09.on-error")
+	}
+	// the unwinding loop runs until only the top-level builder is left (a counted loop would overrun when a
+	// terminator pops more than one builder, or stop early)
+	if f := findFn(p, "builder", "Context.ArtificiallyTerminate"); f != nil {
+		ctxT := p.LookupType("builder", "Context")
+		e := &effectCtx{a: a, p: p, ctxType: ctxT.Type().(*types.Named)}
+		got := e.summarize(f.Obj)
+		want := "for(;?pure:len($_this.builderStack)>1;){def($v1=?pure:len($_this.builderStack)); iface.BuildArtificiallyEndContainer($_this); if(?pure:len($_this.builderStack)>=$v1){ctx.UnstackBuilder()}}"
+		r.Check("C09.on-error", "builder.Context.ArtificiallyTerminate|loop shape", f.Decl.Pos(), got == want, "the unwinding loop does `"+got+"`; required `"+want+"`")
+	}
 
 	// ---- cte error
 	if f := findFn(p, "cte", "ParseDocument"); f == nil {
